@@ -303,6 +303,12 @@ func init() {
 
 func NodeTypeFromName(name, arg string) NodeType {
 	if ntype, ok := nodeTypeMap[name]; ok {
+		switch ntype {
+		case NodeDeviateAdd, NodeDeviateDelete, NodeDeviateReplace,
+			NodeDeviateNotSupported:
+			// Internal refinements of 'deviate', not statement keywords
+			return NodeUnknown
+		}
 		if ntype == NodeDeviate {
 			switch arg {
 			case "not-supported":
